@@ -86,11 +86,11 @@ def placement(top: Path, parent: str, cwd: str, spelling: str) -> tuple[Path, st
     return cw, tgt
 
 
-def run_all(proj: Path, cw: Path, tgt: str, cmds: list[str]) -> dict:
+def run_all(proj: Path, cw: Path, tgt: str, cmds: list[str], flags: list[str] | None = None) -> dict:
     out = {}
     for cmd in cmds:
         os.chdir(cw)
-        r = drive.cli_json([cmd] + (tgt if isinstance(tgt, list) else [tgt]))
+        r = drive.cli_json([cmd] + (flags or []) + (tgt if isinstance(tgt, list) else [tgt]))
         bag = None
         if r["violations"] is not None:
             bag = []
@@ -124,7 +124,7 @@ def job(j: dict) -> dict:
     top = Path(j["top"])
     proj = layout(top, j["parent"])
     cw, tgt = placement(top, j["parent"], j["cwd"], j["spelling"])
-    return run_all(proj, cw, tgt, j["cmds"])
+    return run_all(proj, cw, tgt, j["cmds"], j.get("flags"))
 
 
 def run(chk) -> None:
@@ -157,6 +157,13 @@ def run(chk) -> None:
     jobs = [{"parent": "x", "cwd": "root", "spelling": "absolute", "cmds": cmds},
             {"parent": "x", "cwd": "root", "spelling": "subdirAbs", "cmds": cmds}]       # one reference per target
     jobs += [dict(c, cmds=cmds) for c in cases]
+    # the same placements through the CLI's other execution path (`--parallel`: the project has more than 16 source
+    # files, so the process pool is used): where the project lives must not matter there either
+    PAR_CMDS = ["dry", "stringly-typed", "magic-numbers", "nesting", "unwrap-abuse"]
+    for parent in (["tests", "build", "x"] if quick else ["tests", "build", "x", "test", "fixtures", "venv", "dist", "proj", "examples"]):
+        for cwd, spelling in (("root", "absolute"), ("parent", "relative"), ("else", "dotdot")) if not quick or parent != "x" \
+                else (("else", "dotdot"),):
+            jobs.append({"parent": parent, "cwd": cwd, "spelling": spelling, "cmds": PAR_CMDS, "flags": ["--parallel"]})
     for i, j in enumerate(jobs):
         j["top"] = str(scratch_root() / f"c09-{i}")
     log(f"C09: {len(jobs)} placements x {len(cmds)} commands")
@@ -172,7 +179,7 @@ def run(chk) -> None:
     records, meta = [], []
     for j, r_ in zip(jobs[2:], res[2:]):
         ref = refs["subdir" if j["spelling"] == "subdirAbs" else "project"]
-        for cmd in cmds:
+        for cmd in j["cmds"]:
             o = r_.value[cmd]
             rb = Counter(ref[cmd]["bag"])
             ob = Counter(o["bag"] or [])
@@ -186,6 +193,8 @@ def run(chk) -> None:
                 "pkg.egg-info"}
     for (j, cmd, missing, extra, o, ref), (la, lb, at) in zip(meta, verdicts):
         case = {"parent": j["parent"], "cwd": j["cwd"], "spelling": j["spelling"], "cmd": cmd}
+        if j.get("flags"):
+            case["flags"] = j["flags"]
         chk.count(case, nontrivial=bool(ref[cmd]["bag"]))
         if la == "ok":
             continue
@@ -193,7 +202,7 @@ def run(chk) -> None:
         sample = [json.loads(k) for k in list((missing + extra))[:2]]
         rules = sorted({s[0] for s in sample})
         chk.reject({"clause": la, "cmd": cmd, "parent_class": pclass, "cwd": j["cwd"], "spelling": j["spelling"],
-                    "rules": rules},
+                    "rules": rules, **({"flags": " ".join(j["flags"])} if j.get("flags") else {})},
                    dict(case, sample=sample, stderr=o["stderr"]),
                    f"{la}: thailint {cmd} with parent '{j['parent']}' cwd={j['cwd']} spelling={j['spelling']}: "
                    f"{sum(missing.values())} missing / {sum(extra.values())} extra, e.g. {sample[:1]}")
